@@ -180,17 +180,6 @@ Proof.
 Qed.
 
 (* ---------------------------------------------------------------- set_bits *)
-Lemma zseq_length : forall n, length (zseq n) = n.
-Proof. intros. unfold zseq. rewrite map_length, seq_length. reflexivity. Qed.
-
-Lemma zseq_nth : forall n k, (k < n)%nat -> nth k (zseq n) 0 = Z.of_nat k.
-Proof.
-  intros. unfold zseq. change 0 with (Z.of_nat 0). rewrite map_nth, seq_nth by assumption. reflexivity.
-Qed.
-
-Lemma set_bits_length : forall d lo len raw, length (set_bits d lo len raw) = length d.
-Proof. intros. unfold set_bits. rewrite map_length, zseq_length. reflexivity. Qed.
-
 Lemma byte_from_range : forall f, 0 <= byte_from f < 256.
 Proof.
   intros. unfold byte_from.
@@ -205,25 +194,44 @@ Proof.
   destruct (f 0), (f 1), (f 2), (f 3), (f 4), (f 5), (f 6), (f 7); reflexivity.
 Qed.
 
-Lemma set_bits_ok : forall d lo len raw, bytes_ok (set_bits d lo len raw).
+Lemma set_bits_go_length : forall d k lo len raw, length (set_bits_go k d lo len raw) = length d.
+Proof. induction d; intros; cbn [set_bits_go length]; [reflexivity|f_equal; apply IHd]. Qed.
+
+Lemma set_bits_length : forall d lo len raw, length (set_bits d lo len raw) = length d.
+Proof. intros. apply set_bits_go_length. Qed.
+
+Lemma set_bits_go_ok : forall d k lo len raw, bytes_ok d -> bytes_ok (set_bits_go k d lo len raw).
 Proof.
-  intros. unfold set_bits, bytes_ok. apply Forall_forall. intros x Hx.
-  apply in_map_iff in Hx. destruct Hx as (k & <- & _). apply byte_from_range.
+  induction d as [|b d IH]; intros k lo len raw H; cbn [set_bits_go]; [constructor|].
+  inversion H; subst. constructor; [|apply IH; assumption].
+  destruct ((8 * k + 8 <=? lo) || (lo + len <=? 8 * k)); [assumption|apply byte_from_range].
+Qed.
+
+Lemma set_bits_ok : forall d lo len raw, bytes_ok d -> bytes_ok (set_bits d lo len raw).
+Proof. intros. apply set_bits_go_ok. assumption. Qed.
+
+Lemma set_bits_go_bit : forall d k lo len raw i, 0 <= k -> 0 <= i < 8 * Z.of_nat (length d) ->
+  data_bit (set_bits_go k d lo len raw) i =
+  if (lo <=? 8 * k + i) && (8 * k + i <? lo + len) then Z.testbit raw (8 * k + i - lo) else data_bit d i.
+Proof.
+  induction d as [|b d IH]; intros k lo len raw i Hk Hi.
+  - cbn [length] in Hi. lia.
+  - cbn [set_bits_go]. rewrite !data_bit_cons by lia. cbn [length] in Hi. rewrite Nat2Z.inj_succ in Hi.
+    destruct (Z.ltb_spec i 8).
+    + destruct ((8 * k + 8 <=? lo) || (lo + len <=? 8 * k)) eqn:F.
+      * apply orb_true_iff in F. rewrite !Z.leb_le in F.
+        destruct ((lo <=? 8 * k + i) && (8 * k + i <? lo + len)) eqn:E; [|reflexivity].
+        apply andb_prop in E. destruct E as [P Q]. apply Z.leb_le in P. apply Z.ltb_lt in Q. lia.
+      * rewrite byte_from_bit by lia. cbv zeta. reflexivity.
+    + rewrite IH by lia. replace (8 * (k + 1) + (i - 8)) with (8 * k + i) by lia. reflexivity.
 Qed.
 
 Lemma set_bits_bit : forall d lo len raw i, 0 <= i < 8 * Z.of_nat (length d) ->
   data_bit (set_bits d lo len raw) i =
   if (lo <=? i) && (i <? lo + len) then Z.testbit raw (i - lo) else data_bit d i.
 Proof.
-  intros d lo len raw i Hi.
-  assert (Hk : 0 <= i / 8 < Z.of_nat (length d)) by (Z.div_mod_to_equations; lia).
-  assert (Hj : 0 <= i mod 8 < 8) by (Z.div_mod_to_equations; lia).
-  assert (He : 8 * (i / 8) + i mod 8 = i) by (Z.div_mod_to_equations; lia).
-  unfold data_bit at 1. unfold set_bits.
-  set (g := fun k => byte_from _).
-  rewrite (nth_indep _ 0 (g 0)) by (rewrite map_length, zseq_length; lia).
-  rewrite map_nth, zseq_nth by lia. rewrite Z2Nat.id by lia.
-  unfold g. rewrite byte_from_bit by assumption. cbv zeta. rewrite He. reflexivity.
+  intros d lo len raw i Hi. unfold set_bits. rewrite set_bits_go_bit by lia.
+  replace (8 * 0 + i) with i by lia. reflexivity.
 Qed.
 
 (* two data sections with the same bits are the same bytes *)
@@ -249,7 +257,7 @@ Proof.
   apply bytes_ext.
   - rewrite Hs. subst d. apply bytes_ok_app in Hd. destruct Hd as [H1 Hd]. apply bytes_ok_app in Hd.
     apply bytes_ok_app; split; [tauto|]. apply bytes_ok_app; split; [apply le_enc_ok|tauto].
-  - apply set_bits_ok.
+  - apply set_bits_ok. assumption.
   - rewrite set_bits_length, Hs, Hl, !app_length, le_enc_length. reflexivity.
   - intros i Hi. rewrite Hs in *. rewrite !app_length, le_enc_length in Hi.
     rewrite set_bits_bit by (rewrite Hl; lia).
@@ -311,7 +319,7 @@ Proof.
   apply bytes_ext.
   - rewrite Hs. subst d. apply bytes_ok_app in Hd. destruct Hd as [H1 Hd]. apply bytes_ok_app in Hd.
     apply bytes_ok_app; split; [tauto|]. apply bytes_ok_app; split; [|tauto]. constructor; [assumption|constructor].
-  - apply set_bits_ok.
+  - apply set_bits_ok. assumption.
   - rewrite set_bits_length, Hs, Hl, !app_length. reflexivity.
   - intros i Hi. rewrite Hs in *. rewrite !app_length in Hi. cbn [length] in Hi.
     rewrite set_bits_bit by (rewrite Hl; lia).
